@@ -950,7 +950,12 @@ mod parsers {
                 Err(_) => { h.hit("parsers", "c20_hang_json_object", "JSON::parse_as_properties", &t, "no result within 5 s"); break; }
             }
         }
-        for m in mutations("[cors]\nallow_all = true # c\nallow_origins = [\"a\", \"b\"]\n\nport=80\n").into_iter().take(400) {
+        let mut cfgs: Vec<Vec<u8>> = mutations("[cors]\nallow_all = true # c\nallow_origins = [\"a\", \"b\"]\n\nport=80\n").into_iter().take(400).collect();
+        // values that cannot be stored in an environment variable (NUL), '=' in odd places, table names that look like settings
+        for t in ["port=80\0\n", "port=\0", "[cors]\nallow_all=tr\0ue\n", "ip=1\0.2.3.4\n", "[port=]\na\0=1\n", "# c\0\nport=1", "[a\0]\n", "port==\n", "=\n", "[=]\n=\n", "[port]\n=1\n", "ip=\n", "port=1=2=3\n", "[cors\nallow_all=true"] {
+            cfgs.push(t.as_bytes().to_vec());
+        }
+        for m in cfgs {
             let mm = m.clone();
             if panic::catch_unwind(move || { let c = std::io::Cursor::new(&mm[..]); let _ = crate::entry_point::config_file::read_config_file(c, "".to_string()); }).is_err() {
                 h.hit("parsers", "c20_panic_config_file", "read_config_file", &String::from_utf8_lossy(&m), "panic");
@@ -1290,6 +1295,11 @@ mod probe2 {
             let r3 = std::panic::catch_unwind(|| crate::url::path::UrlPath::is_matching(t, "/a/[[b]]").is_ok());
             let r4 = std::panic::catch_unwind(|| crate::url::path::UrlPath::is_matching("/a/1", t).is_ok());
             println!("{:?}: parts {:?} extract {:?} is_matching(as path) {:?} is_matching(as pattern) {:?}", t, r1, r2, r3, r4);
+        }
+        for t in ["port=80\0\n", "port=\0", "[cors]\nallow_all=tr\0ue\n", "ip=1\0.2.3.4\n", "thread_count='\0'\n", "[port=]\na\0=1\n", "# c\0\nport=1", "[a\0]\n"] {
+            let tt = t.to_string();
+            let r = std::panic::catch_unwind(move || { let c = std::io::Cursor::new(tt.as_bytes()); crate::entry_point::config_file::read_config_file(c, "".to_string()).is_ok() });
+            println!("config {:?}: {:?}", t, r);
         }
         for t in ["\u{20ac}[1]", "[1]\u{20ac}", "[\u{20ac}]", " [1]", "\u{e9}", ""] {
             let tt = t.to_string();
